@@ -113,6 +113,10 @@ func (m *UnstructuredManager) releaseChild(obj *unstructured.Unstructured) error
 	logging.Logger.Info("Releasing", "parent", m.Controller, "child", obj)
 	err := atomicUpdate(m.client, obj, func(obj *unstructured.Unstructured) bool {
 		ownerRefs := removeOwnerReference(obj.GetOwnerReferences(), m.Controller.GetUID())
+		if len(ownerRefs) == len(obj.GetOwnerReferences()) {
+			// Somebody already removed our reference. Nothing to do. Abort update.
+			return false
+		}
 		obj.SetOwnerReferences(ownerRefs)
 		return true
 	})
